@@ -28,9 +28,12 @@ def gen_workload(seed, nshapes, npairs, nhist, depth=2, codec_safe=False):
     rng = random.Random(seed)
     shapes, lines, meta, dist = [], [], {}, {}
     def hit(k): dist[k] = dist.get(k, 0) + 1
-    for i in range(nshapes):
-        sh = G.gen_shape(rng, rng.choice([0, 1, 2, 2, depth]), codec_safe=codec_safe)
-        ko = rng.randrange(2)
+    fixed = G.fixed_shapes(codec_safe)
+    for i in range(nshapes + len(fixed)):
+        # the fixed combination shapes come first (every nesting of recursive strategies, every pair of neighbouring field kinds)
+        sh = fixed[i] if i < len(fixed) else G.gen_shape(rng, rng.choice([0, 1, 2, 2, depth]), codec_safe=codec_safe)
+        if i < len(fixed): hit('fixed_combination_shape')
+        ko = rng.randrange(2) if i >= len(fixed) else i % 2
         sid = str(i)
         shapes.append((sid, ko, sh))
         lines.append(f"SHAPE {sid} {ko} {sh.text()}")
@@ -71,8 +74,9 @@ def gen_setter_workload(seed, nshapes, ncases):
     shapes, lines, meta, dist = [], [], {}, {}
     def hit(k): dist[k] = dist.get(k, 0) + 1
     i = 0
-    while len(shapes) < nshapes:
-        sh = G.gen_shape(rng, rng.choice([0, 1, 2, 2]), allow_enum=False)
+    fixed = G.fixed_shapes()
+    while len(shapes) < nshapes + len(fixed):
+        sh = fixed[i] if i < len(fixed) else G.gen_shape(rng, rng.choice([0, 1, 2, 2]), allow_enum=False)
         sid = str(i); i += 1
         mode, plan = G.setter_plan(sid, sh)
         if not plan: continue
